@@ -93,8 +93,10 @@ type Rec struct {
 	Data      []DataObs
 	DataBytes map[uint32]int // data octets received per stream (padding excluded)
 	Frames    int
-	Unknown   int
-	StreamErr []string
+	// FramesBeforeSettings counts the frames that arrived before the first SETTINGS frame.
+	FramesBeforeSettings int
+	Unknown              int
+	StreamErr            []string
 	// Foreign lists frames that arrived between a HEADERS / PUSH_PROMISE frame without
 	// END_HEADERS and the end of its CONTINUATION sequence (a connection error for
 	// any real receiver, RFC 7540 section 6.10).
@@ -135,6 +137,7 @@ type Endpoint struct {
 	recvGrant    map[uint32]int64
 	recvUsed     map[uint32]int64
 	advMaxFrame  uint32
+	maxOnAck     uint32            // a lowered maximum frame size that binds the peer from its next SETTINGS ack on
 	peerSettings map[uint16]uint32 // settings of the peer that this endpoint has acknowledged
 	heldSettings [][]Setting       // received, not yet acknowledged
 
@@ -292,6 +295,14 @@ func (e *Endpoint) SetAdvertisedMaxFrame(v uint32) {
 	e.mu.Unlock()
 }
 
+// LowerMaxFrameOnNextAck makes the endpoint enforce v as its maximum frame size for every
+// frame that arrives after the next SETTINGS acknowledgement.
+func (e *Endpoint) LowerMaxFrameOnNextAck(v uint32) {
+	e.mu.Lock()
+	e.maxOnAck = v
+	e.mu.Unlock()
+}
+
 // AdvertisedMaxFrameLocked is AdvertisedMaxFrame for use inside With/Wait
 // callbacks (the endpoint's lock is already held there).
 func (e *Endpoint) AdvertisedMaxFrameLocked() uint32 { return e.advMaxFrame }
@@ -393,6 +404,9 @@ func (e *Endpoint) readLoop() {
 				e.rec.Foreign = append(e.rec.Foreign, fmt.Sprintf("%v on stream %d inside the header block of stream %d (after %d of its frames)", f.Header().Type, f.Header().StreamID, pend.stream, pend.frames))
 			}
 		}
+		if _, isSettings := f.(*http2.SettingsFrame); !isSettings && len(e.rec.Settings) == 0 && e.rec.Acks == 0 {
+			e.rec.FramesBeforeSettings++
+		}
 		switch f := f.(type) {
 		case *http2.DataFrame:
 			obs := DataObs{Stream: f.StreamID, FlowLen: int(f.Length), DataLen: len(f.Data()), End: f.StreamEnded()}
@@ -447,6 +461,9 @@ func (e *Endpoint) readLoop() {
 		case *http2.SettingsFrame:
 			if f.IsAck() {
 				e.rec.Acks++
+				if e.maxOnAck != 0 {
+					e.advMaxFrame, e.maxOnAck = e.maxOnAck, 0
+				}
 			} else {
 				var list []Setting
 				f.ForeachSetting(func(s http2.Setting) error {
